@@ -7,7 +7,7 @@ from typing import Any
 
 from harness.common import Ck
 from harness.c07_util import World
-from translate import c07_index_sites
+from translate import c07_index_sites, c07_index_shapes
 
 MANIFEST = dict(
     technique='Rocq proof (index invariant preserved by every operation, by induction over operation sequences on several maps; search() sound and complete; worldspawn pinned) + ast census of Entity._keys writers and index update sites + vm_compute operation-sequence correspondence + scan oracle on real VMF objects',
@@ -521,6 +521,35 @@ def exhaustive_short():
             yield base + [a, b]
 
 
+# ------------------------------------------------------------------------------------------------ source shapes
+SHAPE_IMPORTS = ['SV.SM.IndexModel', 'SV.SM.IndexShapes', 'SV.Gen.IndexShapes_gen']
+SHAPE_OBLIGATIONS = {
+    # Entity.__setitem__ (theorem c07_setitem_as_written: all five => the code is the model's set_item)
+    'setitem_lookup_is_case_insensitive': 'ss_match_ok gen_setitem_shape',
+    'setitem_previous_value_read_with_stored_spelling_before_store': 'ss_hit_read_ok gen_setitem_shape',
+    'setitem_overwrites_the_stored_spelling': 'ss_hit_store_ok gen_setitem_shape',
+    'setitem_else_path_previous_value_is_absent': 'ss_miss_read_ok gen_setitem_shape',
+    'setitem_else_path_stores_callers_key': 'ss_miss_store_ok gen_setitem_shape',
+    # VMF.search (theorem c07_search_as_written)
+    'search_returns_nothing_for_empty_name': 'sh_empty_returns gen_search_shape',
+    'search_folds_the_query': 'sh_folds gen_search_shape',
+    'search_strips_the_star': 'sh_star_strips gen_search_shape',
+    'search_star_branch_yields_exactly_the_prefix_scan': 'star_ok (sh_star gen_search_shape)',
+    'search_exact_branch_yields_name_and_class_matches': 'exact_ok (sh_exact gen_search_shape)',
+    'search_scans_a_snapshot_of_the_items': 'gen_search_scans_snapshot',
+    # CopySet.__iter__ (theorem c07_copyset_iteration_total)
+    'copyset_iter_never_iterates_the_live_set': 'iprog_never_live gen_copyset_iter',
+}
+
+
+def shape_obligations(ck: Ck) -> None:
+    res = ck.instance_obligations(SHAPE_IMPORTS, SHAPE_OBLIGATIONS, name='shapes')
+    for name, ok in res.items():
+        if not ok:
+            ck.tie_broken.append(f'source shape obligation {name} (Gen/IndexShapes_gen.v)')
+    ck.extra['source_shapes'] = ck.extra.get('translated', {}).get('IndexShapes_gen')
+
+
 # ------------------------------------------------------------------------------------------------ main
 def run(ck: Ck) -> None:
     ck.rule = ('histories over 2-3 real VMF objects with at most 6 entities each; names drawn from '
@@ -536,9 +565,12 @@ def run(ck: Ck) -> None:
     ]
     ok_t = ck.translate('IndexSites_gen', c07_index_sites.translate)
     side = ck.extra.get('translated', {}).get('IndexSites_gen', {})
-    built = ck.build(['Props/C07.vo'] + (['SM/IndexCensus.vo'] if ok_t else []))
+    ok_s = ck.translate('IndexShapes_gen', c07_index_shapes.translate)
+    built = ck.build(['Props/C07.vo'] + (['SM/IndexCensus.vo'] if ok_t else []) + (['Gen/IndexShapes_gen.vo'] if ok_s else []))
     if built:
         ck.theorems('Props/C07.v')
+        if ok_s:
+            shape_obligations(ck)
         if ok_t:
             obs = {
                 'all_key_writers_modelled': 'all_key_writers_modelled',
